@@ -316,29 +316,38 @@ class SQLiteAlterTableSQLResult(AlterTableSQLResult):
 
         meta = model._meta
 
-        class _Model(object):
-            class _meta(object):
-                db_table = table_name
-                local_fields = new_fields
-                db_tablespace = None
-                managed = True
-                proxy = False
-                swapped = False
-                index_together = [
-                    _field_names
-                    for _field_names in (meta.index_together or [])
-                    if _fields_exist(_field_names)
-                ]
-                indexes = [
-                    _index
-                    for _index in (getattr(meta, 'indexes', None) or [])
-                    if (_index.fields and _fields_exist(_index.fields) and
-                        not getattr(_index, 'contains_expressions', False))
-                ]
+        class _Meta(object):
+            # Everything not overridden here (the owning model, the
+            # primary key, ...) comes from the real Meta, which index
+            # conditions need in order to be compiled.
+            db_table = table_name
+            local_fields = new_fields
+            fields = new_fields
+            db_tablespace = None
+            managed = True
+            proxy = False
+            swapped = False
+            index_together = [
+                _field_names
+                for _field_names in (meta.index_together or [])
+                if _fields_exist(_field_names)
+            ]
+            indexes = [
+                _index
+                for _index in (getattr(meta, 'indexes', None) or [])
+                if (_index.fields and _fields_exist(_index.fields) and
+                    not getattr(_index, 'contains_expressions', False))
+            ]
 
-                @staticmethod
-                def get_field(name):
-                    return new_fields_by_name[name]
+            @staticmethod
+            def get_field(name):
+                return new_fields_by_name[name]
+
+            def __getattr__(self, name):
+                return getattr(meta, name)
+
+        class _Model(object):
+            _meta = _Meta()
 
         sql += sql_indexes_for_model(connection, _Model)
 
